@@ -432,9 +432,24 @@ def check_common(run, pkg):
             return t in (("call", "builtins.len", (("call", "builtins.set", (D,), ()),), ()), ("call", "builtins.len", (("call", "numpy.unique", (D,), ()),), ()),
                          ("attr", ("call", "numpy.unique", (D,), ()), "size"), ("sub", ("attr", ("call", "numpy.unique", (D,), ()), "shape"), C(0)))
         d0 = ("sub", D, C(0))
-        tabled = (sc[0] == "cmp" and sc[1] == "==" and n_distinct(sc[2]) and sc[3] == C(1)) or \
-            sc in (("call", "numpy.all", (("cmp", "==", D, d0),), ()), ("call", ".all", (("cmp", "==", D, d0),), ()),
-                   ("cmp", "==", ("call", "numpy.ptp", (D,), ()), C(0)), ("call", "numpy.allclose", (D, d0), ()))
+
+        def is_tabled(c, pol=True):
+            """`c` (taken with polarity pol) is one of the accepted spellings of "all differences are equal" """
+            if c[0] == "un" and c[1] == "not":
+                return is_tabled(c[2], not pol)
+            if c[0] == "cmp" and c[1] == "!=" and pol is False:
+                return is_tabled(("cmp", "==", c[2], c[3]), True)
+            if not pol:
+                return False
+            if c[0] == "bool" and c[1] == "and":
+                # non-emptiness tests of the difference array are vacuous for two or more frames
+                nonempty = lambda x: x[0] == "cmp" and x[1] in (">", ">=", "!=") and x[3] in (C(0), C(1)) and x[2] in (("attr", D, "size"), ("call", "builtins.len", (D,), ()))
+                rest = [x for x in c[2] if not nonempty(x)]
+                return len(rest) == 1 and is_tabled(rest[0], True)
+            return (c[0] == "cmp" and c[1] == "==" and ((n_distinct(c[2]) and c[3] == C(1)) or (n_distinct(c[3]) and c[2] == C(1)))) or \
+                c in (("call", "numpy.all", (("cmp", "==", D, d0),), ()), ("call", ".all", (("cmp", "==", D, d0),), ()),
+                      ("cmp", "==", ("call", "numpy.ptp", (D,), ()), C(0)), ("call", "numpy.allclose", (D, d0), ()))
+        tabled = is_tabled(sc)
         # (b) exhaustive small domain: every sequence of 3..5 frames with consecutive differences in {1,2,3,4} (336 sequences) + 2-frame ones
         bad = None
         n_seq = 0
